@@ -116,6 +116,10 @@ func (m *c04Mon) after(h *H, s *step) {
 		}
 		credOK := tc.HasBasic && (tc.BasicUser == w.Opts.ClientID || tc.BasicUser == url.QueryEscape(w.Opts.ClientID)) &&
 			(tc.BasicPass == w.Opts.ClientSecret || tc.BasicPass == url.QueryEscape(w.Opts.ClientSecret))
+		// ... or in the body (client_secret_post): the statement asks for the client's credentials, not for a method
+		if !credOK && tc.FormClientID == w.Opts.ClientID && tc.FormClientSecret == w.Opts.ClientSecret && tc.FormClientSecret != "" {
+			credOK = true
+		}
 		if !credOK {
 			c.Violation("exchange-without-client-credentials", "step #%d: Basic credentials present=%v user=%q pass=%q; configured %q/%q", s.N, tc.HasBasic, tc.BasicUser, tc.BasicPass, w.Opts.ClientID, w.Opts.ClientSecret)
 		}
